@@ -360,8 +360,84 @@ def run_nested_apply(chk, spec):
 					f"{spec!r}: column {nm!r} row {r} (key {kk!r}) = {got[r]!r}, expected {want[kk]!r}; columns {short(dict(zip(names, cols)), 300)}")
 				return
 
+def run_key_forms_sequence(chk, spec):
+	"""the same partition asked for twice in different spellings on one long-lived table: first with the key given as a vector (an UNNAMED column of the table
+	or an outside vector), then by the column's positional accessor / by several names in their accessor or another-case spelling - both answers are the
+	model's, and the table's names are what they were"""
+	import warnings
+	op = spec["op"]
+	with warnings.catch_warnings():
+		warnings.simplefilter("ignore")
+		if spec["what"] == "unnamed-then-accessor":
+			k = ["a", "b", "a", "c"]
+			t = Table([Vector(list(k)), Vector([1, 2, 3, 4], name="v"), Vector([9, 9, 8, 8], name="key")])
+			names0 = t.column_names()
+			calls = [lambda: getattr(t, op)(over=t.cols()[0], sum_over="v"), lambda: getattr(t, op)(over="col0_", sum_over="v"), lambda: getattr(t, op)(over="key", sum_over="v")]
+			keys = [k, k, [9, 9, 8, 8]]
+		else:
+			yr, rg = [2020, 2021, 2020, 2021, 2020], ["n", "n", "s", "s", "n"]
+			t = Table([Vector(list(yr), name="Year"), Vector(list(rg), name="Region Name"), Vector([1, 2, 3, 4, 5], name="Total Sales"), Vector([1, 1, 1, 1, 1], name="v")])
+			names0 = t.column_names()
+			spell = {"accessor": ["year", "region_name"], "upper": ["YEAR", "Region Name"], "mixed": ["Year", "region_name"], "exact": ["Year", "Region Name"], "three": ["year", "region_name", "total_sales"]}[spec["spelling"]]
+			calls = [lambda: getattr(t, op)(over=list(spell), sum_over="v")]
+			keycols = {"year": yr, "region_name": rg, "total_sales": [1, 2, 3, 4, 5]}
+			keys = [[tuple(keycols[_sanit(nm)][i] for nm in spell) for i in range(5)]]
+		v = [1, 2, 3, 4] if spec["what"] == "unnamed-then-accessor" else [1, 1, 1, 1, 1]
+		chk.judged("aggregate", ("key-forms-sequence", op, spec["what"], spec.get("spelling")))
+		for ci, (f, kc) in enumerate(zip(calls, keys)):
+			o = call(f)
+			if not o.ok:
+				chk.fail(f"{op} computes every admissible request", f"{op}/raises/key-forms/{spec['what']}/{spec.get('spelling')}/call-{ci + 1}/{type(o.exc).__name__}", f"{spec!r}: call {ci + 1} raised {o!r}")
+				return
+			groups = {}
+			for i, kk in enumerate(kc):
+				groups.setdefault(kk, []).append(i)
+			sums = {kk: sum(v[i] for i in rows) for kk, rows in groups.items()}
+			names, cols = J.cells(o.value)
+			got_sum = cols[-1]
+			nk = len(cols) - 1
+			gk = [tuple(c[r] for c in cols[:nk]) if nk > 1 else cols[0][r] for r in range(len(cols[0]))]
+			exp = [sums.get(kk) for kk in gk] if op == "aggregate" else [sums.get(kk) for kk in gk]
+			if got_sum != exp or (op == "aggregate" and len(gk) != len(groups)):
+				chk.fail("every output equals the function over the group's values", f"{op}/value/key-forms/{spec['what']}/call-{ci + 1}", f"{spec!r}: call {ci + 1}: keys {gk!r} sums {got_sum!r}, expected {exp!r}")
+				return
+		if t.column_names() != names0:
+			chk.fail("aggregate is a read: the table keeps its column names", f"{op}/key-forms/table-renamed", f"{spec!r}: {names0!r} -> {t.column_names()!r}", prop="C01")
 
-RUNNERS = {"nested_apply": run_nested_apply, "aggregate": run_aggregate, "vector_agree": run_vector_agree, "agg_chain": run_agg_chain, "label_keys": run_label_keys}
+
+def _sanit(nm):
+	import re
+	return re.sub(r"[^a-z0-9_]+", "_", nm.lower()).strip("_")
+
+
+def run_reduce_mutable_cells(chk, spec):
+	"""whole-column min / max over cells that can be changed in place (lists, bytearrays): after such a change the reduction is that of the cells as they are now -
+	the single-group aggregate, which reads the cells afresh, agrees"""
+	mk = {"list": lambda a: [a, a + 1], "bytearray": lambda a: bytearray([65 + a, 66])}[spec["cell"]]
+	cells = [mk(3), mk(1), mk(2)]
+	v = Vector(list(cells), name="v")
+	first = call(getattr(v, spec["fn"]))
+	# in-place edits of cells, no write through the vector
+	if spec["cell"] == "list":
+		cells[0][0] = 0 if spec["fn"] == "min" else 9
+		cells[1][0] = 5
+	else:
+		cells[0][0] = 64 if spec["fn"] == "min" else 90
+	second = call(getattr(v, spec["fn"]))
+	chk.judged("vector-agree", ("reduce-mutable-cells", spec["cell"], spec["fn"]))
+	exp = (min if spec["fn"] == "min" else max)(cells)
+	if not second.ok:
+		return
+	if second.value != exp:
+		chk.fail("whole-column reductions agree with aggregating that column as a single group (the cells as they are now)", f"vector-agree/stale-after-cell-edit/{spec['fn']}/{spec['cell']}", f"{spec!r}: cells now {cells!r}: {spec['fn']} gives {second.value!r}, expected {exp!r}")
+		return
+	t = Table([Vector([1, 1, 1], name="k"), v])
+	a = call(lambda: t.aggregate(over="k", **{spec["fn"] + "_over": "v"}))
+	if a.ok and list(a.value.cols()[1]._underlying)[0] != second.value:
+		chk.fail("whole-column reductions agree with aggregating that column as a single group", f"vector-agree/differs/{spec['fn']}/mutable-cells", f"{spec!r}: vector {second.value!r}, aggregate {list(a.value.cols()[1]._underlying)[0]!r}")
+
+
+RUNNERS = {"key_forms_sequence": run_key_forms_sequence, "reduce_mutable_cells": run_reduce_mutable_cells, "nested_apply": run_nested_apply, "aggregate": run_aggregate, "vector_agree": run_vector_agree, "agg_chain": run_agg_chain, "label_keys": run_label_keys}
 RUNNERS["recompute"] = recompute.runner("C12")
 
 
@@ -406,7 +482,17 @@ def chain_cases(chk, second_op):
 		chk.case("agg_chain", {"first": first, "second_op": second_op}, "agg-chain")
 
 
+def key_form_cases(chk, op):
+	chk.case("key_forms_sequence", {"op": op, "what": "unnamed-then-accessor"}, "key-forms")
+	for spelling in ("accessor", "upper", "mixed", "exact", "three"):
+		chk.case("key_forms_sequence", {"op": op, "what": "spelled-names", "spelling": spelling}, "key-forms")
+
+
 def run(chk):
+	key_form_cases(chk, "aggregate")
+	for cell in ("list", "bytearray"):
+		for fn in ("min", "max"):
+			chk.case("reduce_mutable_cells", {"cell": cell, "fn": fn}, "reduce-mutable-cells")
 	for spec in directed_specs("aggregate"):
 		chk.case("aggregate", spec, "aggregate-directed")
 	for inner in ("aggregate", "window"):
